@@ -136,17 +136,39 @@ def runAll (s : St) : List Op → List Json → String → List Json × String
       runAll o.st rest (j :: acc) w
     else runAll o.st rest acc why
 
-def handler : Handler := fun scn =>
-  let cm := kobjOf (obj scn "claim")
-  let xr := if has scn "xr" then some (kobjOf (obj scn "xr")) else none
-  let ops := (arr scn "ops").filterMap opOf
-  if ops.length != (arr scn "ops").length then .error "unknown op" else
+/-- One claim/XR pair with its history, run on its own: the model of a sync is a
+function of that pair's state only. -/
+def runPair (j : Json) : Except String (List Json × String) :=
+  let cm := kobjOf (obj j "claim")
+  let xr := if has j "xr" then some (kobjOf (obj j "xr")) else none
+  let ops := (arr j "ops").filterMap opOf
+  if ops.length != (arr j "ops").length then .error "unknown op" else
   -- domain of the model: an existing XR is the one the claim's resourceRef names
   let okDom := match xr with
     | some x => refName cm.specFields == some x.name
     | none => true
   if !okDom then .error "claim does not reference the stored XR" else
-  let (steps, why) := runAll { cm := cm, xr := xr, prev := none } ops [] ""
-  .ok (Json.mkObj [("steps", Json.arr steps.toArray)], why == "", why)
+  .ok (runAll { cm := cm, xr := xr, prev := none } ops [] "")
+
+def runPeers : List Json → List Json → String → Except String (List Json × String)
+  | [], acc, why => .ok (acc.reverse, why)
+  | p :: rest, acc, why =>
+    match runPair p with
+    | .error e => .error e
+    | .ok (steps, w) =>
+      runPeers rest (Json.mkObj [("steps", Json.arr steps.toArray)] :: acc) (if why == "" then w else why)
+
+/-- The scenario is a main pair plus peer pairs (other claims of the same XRD that the
+real run pushes through the SAME long-lived syncer objects, interleaved by `sched`).
+The model runs every pair independently and never reads `sched`: the outcome of a sync
+must not depend on which other claims the syncer served before. -/
+def handler : Handler := fun scn =>
+  match runPair scn with
+  | .error e => .error e
+  | .ok (steps, why) =>
+    match runPeers (arr scn "peers") [] why with
+    | .error e => .error e
+    | .ok (peers, why) =>
+      .ok (Json.mkObj [("steps", Json.arr steps.toArray), ("peers", Json.arr peers.toArray)], why == "", why)
 
 end Xp.C07
